@@ -18,13 +18,7 @@ Proof. unfold fresh_rid. intros H. injection H as <- <-. cbn. auto 10. Qed.
 
 (* ------------------------------------------------------------------ revocation primitives and the family predicates *)
 Lemma revoke_access_no_access s X : Inv s -> no_access_rid (revoke_access (st s) X) X.
-Proof.
-  intros I k r H Heq. unfold revoke_access in H.
-  destruct (at_idx (st s) X) as [k0|] eqn:E.
-  - cbn in H. upd_case k k0; [discriminate|].
-    pose proof (inv_at_idx s I _ _ H) as Hi. rewrite Heq, E in Hi. congruence.
-  - pose proof (inv_at_idx s I _ _ H) as Hi. rewrite Heq, E in Hi. discriminate.
-Qed.
+Proof. intros _ k r H Heq. unfold revoke_access in H. cbn in H. apply drop_rid_some in H as [_ Hn]. contradiction. Qed.
 
 Lemma revoke_refresh_no_active s X : Inv s -> no_active_refresh_rid (fst (revoke_refresh (st s) X)) X.
 Proof.
@@ -41,14 +35,14 @@ Qed.
 Lemma revoke_access_tables x X :
   codes (revoke_access x X) = codes x /\ refresh (revoke_access x X) = refresh x /\
   at_idx (revoke_access x X) = at_idx x /\ rt_idx (revoke_access x X) = rt_idx x /\ pkce (revoke_access x X) = pkce x.
-Proof. unfold revoke_access. destruct (at_idx x X); cbn; auto. Qed.
+Proof. unfold revoke_access. cbn. auto. Qed.
 Lemma revoke_refresh_tables x X :
   codes (fst (revoke_refresh x X)) = codes x /\ access (fst (revoke_refresh x X)) = access x /\
   at_idx (fst (revoke_refresh x X)) = at_idx x /\ rt_idx (fst (revoke_refresh x X)) = rt_idx x /\ pkce (fst (revoke_refresh x X)) = pkce x.
 Proof. unfold revoke_refresh. destruct (rt_idx x X) as [k|]; [destruct (refresh x k) as [[? ?]|]|]; cbn; auto. Qed.
 
 Lemma revoke_access_sub x X k r : access (revoke_access x X) k = Some r -> access x k = Some r.
-Proof. unfold revoke_access. destruct (at_idx x X) as [k0|]; cbn; [|auto]. intros H. upd_case k k0; [discriminate|assumption]. Qed.
+Proof. unfold revoke_access. cbn. intros H. now apply drop_rid_some in H as [H _]. Qed.
 Lemma revoke_refresh_sub x X k r : refresh (fst (revoke_refresh x X)) k = Some (true, r) -> refresh x k = Some (true, r).
 Proof.
   unfold revoke_refresh. destruct (rt_idx x X) as [k0|]; [|auto].
@@ -437,7 +431,7 @@ Proof.
   - rewrite Ho3. subst ku. apply upd_eq.
 Qed.
 
-Lemma Inv_decide cfg s dev acc g ga sub : Inv s -> Inv (fst (decide cfg s dev acc g ga sub)).
+Lemma Inv_decide cfg s dev acc g ga sub fr : Inv s -> Inv (fst (decide cfg s dev acc g ga sub fr)).
 Proof.
   intros I. unfold decide.
   destruct (key_of s dev) as [k|]; [|assumption].
@@ -537,7 +531,7 @@ Proof.
       exact (inv_refresh_code s I _ _ _ Er k' r' H).
     + cbn. intros k' b' r' H.
       assert (Hd : device (revoke_access st1 (r_id r)) = device (st s)).
-      { unfold revoke_access. destruct (at_idx st1 (r_id r)); cbn; exact Td. }
+      { unfold revoke_access. cbn. exact Td. }
       rewrite Hd in H. exact (inv_refresh_device s I _ _ _ Er _ _ _ H).
   - (* reuse of an inactive refresh token *)
     change (Inv (set_store (set_store (set_store s (delete_refresh (st s) k))
@@ -600,6 +594,7 @@ Proof.
   - now apply Inv_device_authorize.
   - now apply Inv_decide.
   - now apply Inv_device_poll.
+  - assumption.
 Qed.
 
 Theorem Inv_run cfg h : forall s, Inv s -> Inv (run cfg s h).
